@@ -34,6 +34,11 @@ func (r *vChunkReader) Read(p []byte) (int, error) {
 }
 
 func vHeaderDoc(tag string) (doc, M, C []byte) {
+	d, m, c, _ := vHeaderDocRest(tag, 0)
+	return d, m, c
+}
+
+func vHeaderDocRest(tag string, restLen int) (doc, M, C, rest []byte) {
 	M = zzverif.Bytes("M_"+tag, 2)
 	C = zzverif.Bytes("C_"+tag, 1)
 	for _, b := range M {
@@ -44,7 +49,9 @@ func vHeaderDoc(tag string) (doc, M, C []byte) {
 	doc = append(doc, '\n')
 	doc = append(doc, C...)
 	doc = append(doc, '\n')
-	return doc, M, C
+	rest = zzverif.Bytes("rest_"+tag, restLen)
+	doc = append(doc, rest...)
+	return doc, M, C, rest
 }
 
 // Two independent streams read their headers one after the other through the shared pool: what the first one got
@@ -52,7 +59,7 @@ func vHeaderDoc(tag string) (doc, M, C []byte) {
 //
 //verif:harness prop=C08 name=pool_header_alias unwind=60
 func VerifPoolHeaderAlias() {
-	docA, MA, CA := vHeaderDoc("a")
+	docA, MA, CA, restA := vHeaderDocRest("a", 2) // stream A's header is followed by the beginning of its payload
 	docB, MB, CB := vHeaderDoc("b")
 	var inA io.Reader = &vChunkReader{data: docA}
 	var inB io.Reader = &vChunkReader{data: docB}
@@ -72,6 +79,18 @@ func VerifPoolHeaderAlias() {
 	zzverif.Assert(zzverif.EqBytes(cA, CA), "stream_a_mac_unaffected_by_stream_b")
 	zzverif.Assert(zzverif.EqBytes(mB, MB), "stream_b_manifest")
 	zzverif.Assert(zzverif.EqBytes(cB, CB), "stream_b_mac")
+	// the bytes stream A had read beyond its header are handed back through the reader it left behind: they too must
+	// survive the other stream's use of the pool
+	var gotRest []byte
+	buf := make([]byte, 4)
+	for i := 0; i < 4; i++ {
+		n, err := inA.Read(buf)
+		gotRest = append(gotRest, buf[:n]...)
+		if err != nil {
+			break
+		}
+	}
+	zzverif.Assert(zzverif.EqBytes(gotRest, restA), "stream_a_payload_bytes_unaffected_by_stream_b")
 	zzverif.Cover("pool_header_alias_done")
 }
 
